@@ -60,6 +60,78 @@ def strLt : Str → Str → Bool
   | _ :: _, [] => false
   | a :: as, b :: bs => if a.toNat < b.toNat then true else if b.toNat < a.toNat then false else strLt as bs
 
+/-- Unicode `White_Space` (Rust `char::is_whitespace`, used by `str::trim`) -/
+def isUniWs (c : Char) : Bool :=
+  let n := c.toNat
+  (9 ≤ n && n ≤ 13) || n = 0x20 || n = 0x85 || n = 0xA0 || n = 0x1680 || (0x2000 ≤ n && n ≤ 0x200A) ||
+  n = 0x2028 || n = 0x2029 || n = 0x202F || n = 0x205F || n = 0x3000
+
+def trimUni (s : Str) : Str := ((s.dropWhile isUniWs).reverse.dropWhile isUniWs).reverse
+
+/-- UTF-8 encoding of one scalar value -/
+def encodeChar (c : Char) : List UInt8 :=
+  let n := c.toNat
+  if n < 0x80 then [UInt8.ofNat n]
+  else if n < 0x800 then [UInt8.ofNat (0xC0 + n / 64), UInt8.ofNat (0x80 + n % 64)]
+  else if n < 0x10000 then [UInt8.ofNat (0xE0 + n / 4096), UInt8.ofNat (0x80 + n / 64 % 64), UInt8.ofNat (0x80 + n % 64)]
+  else [UInt8.ofNat (0xF0 + n / 262144), UInt8.ofNat (0x80 + n / 4096 % 64), UInt8.ofNat (0x80 + n / 64 % 64),
+        UInt8.ofNat (0x80 + n % 64)]
+
+def utf8 (s : Str) : List UInt8 := s.flatMap encodeChar
+
+def isCont (b : UInt8) : Bool := 0x80 ≤ b.toNat && b.toNat ≤ 0xBF
+
+/-- `String::from_utf8_lossy`: valid sequences are decoded; every maximal invalid prefix of a
+sequence becomes one U+FFFD (the "substitution of maximal subparts" practice Rust follows).
+`fuel` = number of bytes. -/
+def decodeLossyAux : Nat → List UInt8 → Str
+  | 0, _ => []
+  | _, [] => []
+  | fuel + 1, b0 :: rest =>
+    let n0 := b0.toNat
+    let bad := Char.ofNat 0xFFFD
+    if n0 < 0x80 then Char.ofNat n0 :: decodeLossyAux fuel rest
+    else if 0xC2 ≤ n0 ∧ n0 ≤ 0xDF then
+      match rest with
+      | b1 :: r1 => if isCont b1 then Char.ofNat ((n0 - 0xC0) * 64 + (b1.toNat - 0x80)) :: decodeLossyAux fuel r1
+                    else bad :: decodeLossyAux fuel rest
+      | [] => [bad]
+    else if 0xE0 ≤ n0 ∧ n0 ≤ 0xEF then
+      match rest with
+      | b1 :: r1 =>
+        let lo := if n0 = 0xE0 then 0xA0 else 0x80
+        let hi := if n0 = 0xED then 0x9F else 0xBF
+        if lo ≤ b1.toNat ∧ b1.toNat ≤ hi then
+          match r1 with
+          | b2 :: r2 => if isCont b2 then
+                          Char.ofNat ((n0 - 0xE0) * 4096 + (b1.toNat - 0x80) * 64 + (b2.toNat - 0x80)) :: decodeLossyAux fuel r2
+                        else bad :: decodeLossyAux fuel r1
+          | [] => [bad]
+        else bad :: decodeLossyAux fuel rest
+      | [] => [bad]
+    else if 0xF0 ≤ n0 ∧ n0 ≤ 0xF4 then
+      match rest with
+      | b1 :: r1 =>
+        let lo := if n0 = 0xF0 then 0x90 else 0x80
+        let hi := if n0 = 0xF4 then 0x8F else 0xBF
+        if lo ≤ b1.toNat ∧ b1.toNat ≤ hi then
+          match r1 with
+          | b2 :: r2 =>
+            if isCont b2 then
+              match r2 with
+              | b3 :: r3 => if isCont b3 then
+                              Char.ofNat ((n0 - 0xF0) * 262144 + (b1.toNat - 0x80) * 4096 + (b2.toNat - 0x80) * 64 + (b3.toNat - 0x80))
+                                :: decodeLossyAux fuel r3
+                            else bad :: decodeLossyAux fuel r2
+              | [] => [bad]
+            else bad :: decodeLossyAux fuel r1
+          | [] => [bad]
+        else bad :: decodeLossyAux fuel rest
+      | [] => [bad]
+    else bad :: decodeLossyAux fuel rest
+
+def utf8DecodeLossy (bs : List UInt8) : Str := decodeLossyAux bs.length bs
+
 def ofString (s : String) : Str := s.toList
 def toString (s : Str) : String := String.ofList s
 
